@@ -601,16 +601,27 @@ def generate(api):
             raise Bad("clip::apply: order of operations changed: %r" % order)
         if gorder != ['draw_children(', 'apply(clip, transform, &mut clip_pixmap)', 'draw_pixmap(']:
             raise Bad("clip::clip_group: order of operations changed: %r" % gorder)
+        # the flow of `mode` through draw_children: paths and text are filled with the caller's mode, plain nested groups recurse with the
+        # SAME mode (the per-pixel model flattens them), groups with a clip-path go through clip_group
+        dc = body_of(clip, 'draw_children')
+        flow = (re.search(r"crate::path::fill_path\(path,\s*mode,", dc) is not None,
+                re.search(r"draw_children\(text\.flattened\(\),\s*mode,\s*transform,\s*pixmap\)", dc) is not None,
+                re.search(r"\}\s*else\s*\{\s*draw_children\(group,\s*mode,\s*transform,\s*pixmap\);\s*\}", dc) is not None,
+                re.search(r"if\s+let\s+Some\(clip\)\s*=\s*group\.clip_path\(\)\s*\{\s*clip_group\(group,\s*clip,\s*transform,\s*pixmap\);", dc) is not None,
+                len(re.findall(r"BlendMode::", dc)) == 0)
         return ("Inductive blend := BClear | BSourceOver | BXor | BOther.\n"
                 "(* clip.rs :: apply / clip_group *)\n"
                 "Definition clip_buffer_initial_opaque : bool := %s.\n"
                 "Definition clip_children_mode : blend := %s.\n"
                 "Definition clip_group_children_mode : blend := %s.\n"
                 "Definition clip_group_merge_mode : blend := %s.\n"
+                "(* clip.rs :: draw_children: paths / text / plain nested groups all use the caller's mode; clipped groups use clip_group; no literal mode *)\n"
+                "Definition clip_mode_flows_unchanged : bool := %s.\n"
                 % ('true' if fill.group(1) == 'BLACK' else 'false',
                    {'Clear': 'BClear', 'SourceOver': 'BSourceOver', 'Xor': 'BXor'}.get(mode.group(1), 'BOther'),
                    {'Clear': 'BClear', 'SourceOver': 'BSourceOver', 'Xor': 'BXor'}.get(gmode.group(1), 'BOther'),
-                   {'Clear': 'BClear', 'SourceOver': 'BSourceOver', 'Xor': 'BXor'}.get(gblend.group(1), 'BOther')))
+                   {'Clear': 'BClear', 'SourceOver': 'BSourceOver', 'Xor': 'BXor'}.get(gblend.group(1), 'BOther'),
+                   'true' if all(flow) else 'false'))
     section('clip_modes', clip_modes, ('C15',), out_clip)
 
     def mask_shape():
